@@ -5,7 +5,9 @@
 package enginesim
 
 import (
+	"bytes"
 	"crypto/sha256"
+	"errors"
 	"fmt"
 	"sort"
 	"strings"
@@ -52,6 +54,10 @@ type Op struct {
 	// express: not now but from a callback of the engine's timer, AfterMs later (an application that sends on a
 	// schedule). The Interest is expressed - and its lifetime starts - when that callback runs
 	AfterMs int `json:"after_ms,omitempty"`
+	// express: the face refuses to send this Interest (a transient error of the socket); Express returns the error.
+	// Whether the application still hears about that Interest (at most once) is the engine's choice - every other
+	// Interest must be served as if nothing had happened
+	FailSend bool `json:"fail_send,omitempty"`
 	// nack: the Nack header carries no reason (NDNLPv2: "None")
 	NoReason bool `json:"no_reason,omitempty"`
 	// race: the sub-operations (express / data / nack / fire) run as concurrent tasks; a cooperative scheduler lets
@@ -134,6 +140,8 @@ func (Engine) Generate(prop string, r *kit.Rand, tier string) *kit.Scenario[Conf
 			}
 			if r.Chance(0.07) {
 				o.AfterMs = kit.Pick(r, []int{1, 10, 50, 100, 500, 1000, 3999, 4000, 5000})
+			} else if sc.Config.Harness == "" && r.Chance(0.04) {
+				o.FailSend = true
 			}
 			nexp++
 			sc.Ops = append(sc.Ops, o)
@@ -172,7 +180,7 @@ func (Engine) Generate(prop string, r *kit.Rand, tier string) *kit.Scenario[Conf
 		for j := 0; j < nsub; j++ {
 			switch r.Weighted([]int{4, 3, 1, 4}) {
 			case 0:
-				so := Op{Op: "express", Name: genName(r, pool), CBP: r.Chance(0.3), LifeMs: kit.Pick(r, []int{0, 50, 100, 500})}
+				so := Op{Op: "express", Name: genName(r, pool), CBP: r.Chance(0.3), LifeMs: kit.Pick(r, []int{0, 50, 100, 500}), FailSend: r.Chance(0.15)}
 				pool = append(pool, so.Name)
 				ro.Sub = append(ro.Sub, so)
 			case 1:
@@ -219,6 +227,9 @@ func (Engine) Simplify(sc *kit.Scenario[Config, Op]) []*kit.Scenario[Config, Op]
 		if o.AfterMs != 0 {
 			mod(i, func(o *Op) { o.AfterMs = 0 })
 		}
+		if o.FailSend {
+			mod(i, func(o *Op) { o.FailSend = false })
+		}
 		if o.Retry != 0 {
 			mod(i, func(o *Op) { o.Retry = 0 })
 		}
@@ -239,6 +250,9 @@ type simFace struct {
 	onPkt   func(r enc.ParseReader) error
 	onErr   func(err error) error
 	sent    [][]byte
+	// nonces of the Interests that the face will refuse to send (once each)
+	failNonce map[uint32]bool
+	failed    int
 }
 
 func (f *simFace) Open() error     { f.running = true; return nil }
@@ -249,7 +263,15 @@ func (f *simFace) SetCallback(onPkt func(r enc.ParseReader) error, onError func(
 	f.onPkt, f.onErr = onPkt, onError
 }
 func (f *simFace) Send(pkt enc.Wire) error {
-	f.sent = append(f.sent, pkt.Join())
+	raw := pkt.Join()
+	for n := range f.failNonce {
+		if bytes.Contains(raw, []byte{0x0a, 0x04, byte(n >> 24), byte(n >> 16), byte(n >> 8), byte(n)}) {
+			delete(f.failNonce, n)
+			f.failed++
+			return errors.New("simulated: no buffer space available")
+		}
+	}
+	f.sent = append(f.sent, raw)
 	return nil
 }
 
@@ -316,13 +338,14 @@ func (t *simTimer) due() []*simEvent {
 // ---------------------------------------------------------------- model
 
 type pend struct {
-	id      int
-	name    string // digest stripped
-	cbp     bool
-	digest  []byte
-	t0      time.Time
-	life    time.Duration
-	results []string
+	sendFailed bool // Express returned the face's error for this one
+	id         int
+	name       string // digest stripped
+	cbp        bool
+	digest     []byte
+	t0         time.Time
+	life       time.Duration
+	results    []string
 }
 
 type inInterest struct {
@@ -486,9 +509,10 @@ func (e Engine) runBody(t *testing.T, ctx *kit.Ctx, sc *kit.Scenario[Config, Op]
 		return false
 	}
 	var expressFn func(nm string, cbp bool, lifeMs, digest, retry int, fromCb bool) *kit.Result
+	failNextSend := false    // the next Express of the harness goroutine meets a send error
 	planned, started := 0, 0 // Interests to be expressed from a timer callback: scheduled / callback has run
 	var lastPlanned time.Time
-	var cbFail *kit.Result         // a failure of a retransmission
+	var cbFail *kit.Result          // a failure of a retransmission
 	var retryQ []func() *kit.Result // retransmissions asked for by callbacks, made once the engine call has returned
 	drainRetries := func() {
 		for len(retryQ) > 0 {
@@ -520,6 +544,15 @@ func (e Engine) runBody(t *testing.T, ctx *kit.Ctx, sc *kit.Scenario[Config, Op]
 		}
 		pends = append(pends, p)
 		id := p.id
+		if failNextSend {
+			failNextSend = false
+			if face.failNonce == nil {
+				face.failNonce = map[uint32]bool{}
+			}
+			face.failNonce[uint32(1000+id)] = true
+			p.sendFailed = true
+			ctx.Fault("send-error")
+		}
 		err = eng.Express(ei, func(a ndn.ExpressCallbackArgs) {
 			r := cbRec{id: id}
 			switch a.Result {
@@ -542,7 +575,7 @@ func (e Engine) runBody(t *testing.T, ctx *kit.Ctx, sc *kit.Scenario[Config, Op]
 				retryQ = append(retryQ, func() *kit.Result { return expressFn(nm, cbp, lifeMs, digest, retry-1, true) })
 			}
 		})
-		if err != nil {
+		if err != nil && !p.sendFailed {
 			return fail("C20/express-failed", "", "Express(%s) returned %v (from inside a callback: %v)", nm, err, fromCb)
 		}
 		return nil
@@ -554,7 +587,9 @@ func (e Engine) runBody(t *testing.T, ctx *kit.Ctx, sc *kit.Scenario[Config, Op]
 		nsent := sentCount()
 		switch op.Op {
 		case "express":
-			if op.AfterMs > 0 {
+			if op.AfterMs > 0 && !useReal {
+				// (not on the production timer: its callbacks run on goroutines of their own, and this harness's
+				// bookkeeping is only serialised by the engine's lock, which a timer callback does not hold)
 				op := op
 				planned++
 				at := nowT().Add(time.Duration(op.AfterMs) * time.Millisecond)
@@ -570,10 +605,15 @@ func (e Engine) runBody(t *testing.T, ctx *kit.Ctx, sc *kit.Scenario[Config, Op]
 				})
 				break
 			}
+			failNextSend = op.FailSend && !useDummy && !useReal
+			wantSent := 1
+			if failNextSend {
+				wantSent = 0
+			}
 			if r := expressFn(op.Name, op.CBP, op.LifeMs, op.Digest, op.Retry, false); r != nil {
 				return r
 			}
-			if sentCount() != nsent+1 {
+			if sentCount() != nsent+wantSent {
 				return fail("C20/interest-not-transmitted", "", "Express(%s) put %d packets on the face", op.Name, sentCount()-nsent)
 			}
 		case "data":
@@ -686,6 +726,14 @@ func (e Engine) runBody(t *testing.T, ctx *kit.Ctx, sc *kit.Scenario[Config, Op]
 						}
 						pends = append(pends, p)
 						id := p.id
+						if so.FailSend {
+							if face.failNonce == nil {
+								face.failNonce = map[uint32]bool{}
+							}
+							face.failNonce[uint32(1000+id)] = true
+							p.sendFailed = true
+							ctx.Fault("send-error")
+						}
 						eng.Express(ei, func(a ndn.ExpressCallbackArgs) {
 							r := cbRec{id: id}
 							switch a.Result {
@@ -1015,7 +1063,7 @@ func (e Engine) runBody(t *testing.T, ctx *kit.Ctx, sc *kit.Scenario[Config, Op]
 		if op.Op == "data" {
 			sum := sha256.Sum256(dataRaw)
 			for _, p := range pends {
-				if len(p.results) > 0 || got[p.id] {
+				if len(p.results) > 0 || got[p.id] || p.sendFailed {
 					continue
 				}
 				sat := p.name == dataName || (p.cbp && isPrefix(p.name, dataName))
@@ -1038,6 +1086,9 @@ func (e Engine) runBody(t *testing.T, ctx *kit.Ctx, sc *kit.Scenario[Config, Op]
 		}
 		if op.Op == "final" {
 			for _, p := range pends {
+				if p.sendFailed && len(p.results) == 0 {
+					continue // it never left; the application was told so by Express
+				}
 				if len(p.results) != 1 {
 					return fail("C20/interest-never-resolved", "", "Interest #%d %s (expressed %v, lifetime %v) has %d results after every deadline passed and all timers fired", p.id, p.name, p.t0.Sub(start), p.life, len(p.results))
 				}
